@@ -42,8 +42,39 @@ def main(argv: list[str]) -> int:
         if not b.driver_ok:
             print("tooling failure: the model or its driver does not build\n" + b.log[-3000:])
             return 2
-        framework.run_corpus(ctx)
-        getattr(props, f"check_{pid}")(ctx)
+        cov = None
+        if ctx.tier == "thorough" or os.environ.get("VERIF_COVERAGE") == "1":
+            try:
+                import coverage  # line coverage of the code under test while the check runs (in-process part only)
+                cov = coverage.Coverage(data_file=None, include=[str(common.REPO / "pyjelly" / "*")], omit=["*/rdf_pb2.py"])
+                cov.start()
+            except Exception:  # noqa: BLE001
+                cov = None
+        try:
+            framework.run_corpus(ctx)
+            getattr(props, f"check_{pid}")(ctx)
+        finally:
+            if cov is not None:
+                cov.stop()
+                per_file = {}
+                for fn in sorted(cov.get_data().measured_files()):
+                    try:
+                        _, stmts, _, missing, _ = cov.analysis2(fn)
+                        # lines executed at import time (module/class level, `def` headers) ran before measurement started:
+                        # count only lines inside function bodies
+                        import ast
+                        body_lines = set()
+                        for node in ast.walk(ast.parse(open(fn).read())):
+                            if isinstance(node, (ast.FunctionDef, ast.AsyncFunctionDef)):
+                                for st in node.body:
+                                    body_lines.update(range(st.lineno, (st.end_lineno or st.lineno) + 1))
+                        stmts = [x for x in stmts if x in body_lines]
+                        missing = [x for x in missing if x in body_lines]
+                        if stmts:
+                            per_file[os.path.relpath(fn, common.REPO)] = round(100.0 * (len(stmts) - len(missing)) / len(stmts), 1)
+                    except Exception:  # noqa: BLE001
+                        pass
+                ctx.extra["line_coverage_percent_of_pyjelly_files_during_this_run"] = per_file
         return framework.finish(ctx, b, spec)
     except common.DriverError as e:
         print(f"tooling failure: {e}")
